@@ -29,6 +29,7 @@ type obligation struct {
 	Clause    string
 	// result
 	Status   string // discharged refuted unknown
+	Via      string // the included property the obligation comes from (contracts.Includes)
 	Solver   string
 	Secs     float64
 	Model    string
